@@ -23,6 +23,7 @@ import Pyc.Driver.WitnessCodec
 import Pyc.Driver.BodyAsm
 import Pyc.Driver.Gov
 import Pyc.Driver.PackFit
+import Pyc.Driver.Compose
 open Lean Pyc.Driver
 
 /-- dispatch on the prefix of `op` -/
@@ -53,6 +54,7 @@ def dispatch (op : String) (j : Json) : R Json :=
   else if op.startsWith "wc." then handleWitnessCodec op j
   else if op.startsWith "basm." then handleBodyAsm op j
   else if op.startsWith "pfit." then handlePackFit op j
+  else if op.startsWith "cmp." then handleCompose op j
   else throw s!"unknown op {op}"
 
 def handleLine (line : String) : String :=
